@@ -192,6 +192,7 @@ func faultProbeRun(t *rapid.T) {
 			}
 			count("fault_fired_"+fkName, 1)
 			count("pos_fired_"+site.Class, 1)
+			count("ctx_fired_"+site.Ctx, 1)
 			where := fmt.Sprintf("%s probe %d (%s, class %s) in template %q line %d, invocation %d of %d, fault %s",
 				inv.Kind, inv.ID, inv.Name, site.Class, site.Tmpl, site.Line, k, M, fkName)
 			ex := map[string]interface{}{"fault": where, "output": out, "error": fmt.Sprint(err)}
